@@ -78,15 +78,12 @@ Proof.
 Qed.
 
 (** ** the state of the recipe table relative to the open branches *)
-Inductive mode := Clean | Sib | Dirty.
 Definition minv (md : mode) (st : rstate) : Prop :=
   match md with
   | Clean => map fst (s_recipes st) = s_branch_anchor st
   | Sib => map fst (s_recipes st) = s_branch_anchor st ++ [s_prev_node st]
   | Dirty => True
   end.
-Definition mode_open (md : mode) (op : bool) : mode :=
-  if op then match md with Dirty => Dirty | _ => Clean end else match md with Clean => Clean | _ => Dirty end.
 Definition mode_close (md : mode) (depth0 : bool) : mode :=
   if depth0 then Clean else match md with Clean => Sib | _ => Dirty end.
 Definition mode_item (md : mode) (i : lin) (depth0 : bool) : mode :=
@@ -132,19 +129,6 @@ Proof.
 Qed.
 
 (** ** the static reading of a flat item and of a unit, in closed form *)
-Definition tmk (c : option pystr) (p : Z) (ns : list pystr) (f : bool) : tstate :=
-  {| t_cur := c; t_pend := p; t_names := ns; t_flag := f |}.
-Definition item_track (i : lin) (s : tstate) : option tstate :=
-  match (if l_open i then
-           (if t_flag s then None else match t_cur s with Some c => Some (c :: t_names s) | None => None end)
-         else Some (t_names s)) with
-  | None => None
-  | Some ns =>
-      match l_close i with
-      | None => Some (tmk (Some (l_name i)) (oord (l_bond i)) ns false)
-      | Some a => match ns with c :: r => Some (tmk (Some c) (oord a) r false) | [] => None end
-      end
-  end.
 Lemma trun_rings rs ts s : trun (map ring_tok rs ++ ts) s = trun ts s.
 Proof. induction rs as [|r t IH]; [reflexivity|]. cbn [map app trun ring_tok tstep]. exact IH. Qed.
 Lemma trun_osym o ts s : trun (osym_tok o ++ ts) s
@@ -221,10 +205,6 @@ Qed.
 
 (** ** a multiplied branch behind its anchor *)
 Definition gunit_str (u : unit_t) : pystr := "("%char :: flat_map bnode_str (u_body u) ++ closing_str u.
-Definition gunit_ok (fo : float_oracle) (u : unit_t) : bool :=
-  name_ok fo (u_name u) && negb (is_nil (u_body u)) && body_ok fo (oord (u_bond u)) (u_body u)
-  && match rev (u_body u) with b :: _ => negb (is_some (bn_bond b)) | [] => false end
-  && digits_ok (u_count u) && (1 <=? digits_nat (u_count u))%nat.
 Lemma gunit_ok_parts fo u : gunit_ok fo u = true ->
   name_ok fo (u_name u) = true /\ u_body u <> [] /\ body_ok fo (oord (u_bond u)) (u_body u) = true
   /\ last_bond_none (u_body u) /\ digits_ok (u_count u) = true /\ (1 <= digits_nat (u_count u))%nat.
